@@ -144,6 +144,23 @@ class _Quiet:
         return lambda *a, **k: None
 
 
+def race_schedules():
+    """hand-made additions to the TLC-simulated schedules: a second event is fanned out while the tasks of the first are still
+    around (so the storage layer suspends before it notifies), and at that very moment another connection closes, replaces or
+    opens a matching subscription"""
+    out = []
+    f_k1, f_ta, f_k7 = [{"kinds": [1]}], [{"tags": {"t": ["a"]}}], [{"kinds": [7, 20000]}, {"tags": {"t": ["b"]}}]
+    for sub, pub in ((0, 1), (1, 0)):
+        for first, second in (("n1", "n3"), ("n1", "n4"), ("n2", "n1")):
+            for late in ({"m": "CLOSE", "sid": "s1"}, {"m": "REQ", "sid": "s1", "fs": f_k7}, {"m": "REQ", "sid": "s2", "fs": f_ta},
+                         {"m": "REQ", "sid": "s1", "fs": [None]}):
+                out.append([("open", sub), ("open", pub), ("msg", sub, {"m": "REQ", "sid": "s1", "fs": f_k1}), ("idle",),
+                            ("msg", pub, {"m": "EVENT", "e": first}), ("idle",),
+                            ("msg", pub, {"m": "EVENT", "e": second}), ("defer", sub, late), ("idle",),
+                            ("msg", pub, {"m": "EVENT", "e": "n2" if "n2" not in (first, second) else "n3"}), ("idle",)])
+    return out
+
+
 def _with_deferred(sched, n):
     """in every other schedule, a REQ or CLOSE that follows another connection's EVENT is held back until that event's
     fan-out is suspended in the storage layer (the moment at which a registry change is most delicate)"""
@@ -216,7 +233,7 @@ def run(prop, tier, seed, backends=BACKENDS, only_universe=None):
         sc = sorted(sc, key=repr)
         sc = [_with_deferred(x, n) for n, x in enumerate(sc)]
         rnd.shuffle(sc)
-        scheds[backend] = sc[:cap[backend] // (1 if len(variants) == 1 else 2)]
+        scheds[backend] = sc[:cap[backend] // (1 if len(variants) == 1 else 2)] + (race_schedules() if vn == 0 else [])
       payloads = []
       for backend in backends:
         sc = scheds[backend]
